@@ -563,6 +563,9 @@ func (w *exWorld) checkAnswered(final bool) bool {
 // per-key state remains") is not observable through the API; the field is read reflectively and the
 // check is skipped when the representation is not a map called work.
 func exMapLen(e *bigbuff.Exclusive) int {
+	if simrt.RaceEnabled {
+		return -1 // an unlocked white-box read: not something to show the race detector
+	}
 	f := reflect.ValueOf(e).Elem().FieldByName("work")
 	if !f.IsValid() || f.Kind() != reflect.Map {
 		return -1
